@@ -108,6 +108,16 @@ def handleNm (st : NmState) : List String → NmState × String
     match parseHex h with
     | some n => (st, toHex (encodeIdent n))
     | none => (st, "bad-op")
+  | ["ptr", s, v, h, pk] =>
+    match s.toNat?, v.toNat?, parseHex h with
+    | some s, some v, some n =>
+      match depthOf s st.ids 0 with
+      | none => (st, "bad-scope")
+      | some d =>
+        match varPtrName st.minify v n (pk == "1") (st.chain.drop d) with
+        | none => (st, "panic")
+        | some (post, nm) => ({ st with chain := st.chain.take d ++ post }, toHex nm)
+    | _, _, _ => (st, "bad-op")
   | ["child", p, h] =>
     match p.toNat?, parseHex h with
     | some p, some n =>
@@ -151,6 +161,7 @@ def handleNm (st : NmState) : List String → NmState × String
 
 def handle (st : NmState) : List String → NmState × String
   | "rw" :: rest => (st, handleRw rest)
+  | ["nm", "gchild", p, h] => handleNm st ["child", p, h]   -- the instance kind does not matter to the repaired allocator
   | "nm" :: rest => handleNm st rest
   | _ => (st, "bad-topic")
 
